@@ -32,6 +32,21 @@ def handle (op : String) (c i : Json) : Except String (Json × String) := do
              else if !sameOld then "fail: an existing signal was changed by create_dummy_signals"
              else "fail: after adding dummies some bit belongs to no signal or to two"
     pure (m, s)
+  | "dummies2" =>
+    -- pad, take the first signal out, pad again: i = {"mid": signals before the second call, "after": signals after it}
+    let f ← DC.frame (← J.key c "f")
+    let nm ← J.str (← J.key c "name")
+    let g1 := f.createDummySignals nm
+    let midM := g1.sigs.drop 1
+    let g2 := ({ g1 with sigs := midM } : Frame).createDummySignals nm
+    let m := J.obj [("mid", J.ofList (midM.map sigJ)), ("after", J.ofList (g2.sigs.map sigJ))]
+    let mid ← sigsOfJson (← J.key i "mid")
+    let after ← sigsOfJson (← J.key i "after")
+    let sameOld := (after.take mid.length).map sigJ == mid.map sigJ
+    let s := if Spec.dummiesOk f.size (mid.map DC.specSig) (after.map DC.specSig) sameOld then "ok"
+             else if !sameOld then "fail: an existing signal was changed by the second create_dummy_signals"
+             else "fail: after padding a second time some bit belongs to no signal or to two"
+    pure (m, s)
   | "dlc" =>
     let f ← DC.frame (← J.key c "f")
     let strat ← J.str (← J.key c "strategy")
